@@ -338,13 +338,21 @@ TupleProg(k) ==
                                    <<IfSet("ya", WInt, V("a"), Block(<<IfSet("yp", PairTy, V("p"), Block(<<Ret(Bin("+", V("ya"), TupAt(V("yp"), 0)))>>), NoneV)>>), NoneV), Ret(I(-1))>>))>>
     [] k = "call-with-one-tuple" -> <<FnDecl("fst", <<P("p", PairTy)>>, WInt, <<Ret(TupAt(V("p"), 0))>>), Set("t", Hide(PairTy, TupE(<<I(8), S(<<97>>)>>))),
                                       Bin("+", CallE(V("fst"), <<V("t")>>), CallE(V("fst"), <<TupE(<<I(1), S(<<98>>)>>)>>))>>
+\* a type filter whose type holds a cell of a UNION: cells are invariant, exactly the cells declared with that union pass
+CellProg(k) ==
+  CASE k = "tfilter-mut-union" ->
+         <<Set("cs", ArrE(<<MutE(WMulti(<<WInt, WFloat>>), I(1)), MutE(WInt, I(2)), MutE(WMulti(<<WInt, WFloat>>), F(5))>>)),
+           Set("n", MutE(WInt, I(0))), For("e", TFilterE(IterE(V("cs")), WMut(WMulti(<<WInt, WFloat>>))), Block(<<Asg("+=", V("n"), I(1))>>)), Deref(V("n"))>>
+    [] k = "tfilter-array-of-mut-union" ->
+         <<Set("cs", Hide(WArr(WAny), ArrE(<<ArrE(<<MutE(WMulti(<<WInt, WStr>>), I(1))>>), ArrE(<<MutE(WInt, I(2))>>), I(3)>>))),
+           Set("n", MutE(WInt, I(0))), For("e", TFilterE(IterE(V("cs")), WArr(WMut(WMulti(<<WInt, WStr>>)))), Block(<<Asg("+=", V("n"), I(1))>>)), Deref(V("n"))>>
 SpecialSeq == << <<"fold-over-void", 206>>, <<"fold-over-void-results", 3>>, <<"collect-void", 6>>, <<"for-over-void", 5>>, <<"filter-void", 1>>,
                  <<"tfilter-empty-array-type", 2>>, <<"tfilter-int-array-type", 3>>, <<"tfilter-any-array-type", 4>>,
                  <<"tfilter-nested-empty-array-type", 3>>,
                  <<"map-over-tuples", 14>>, <<"filter-tuples", 5>>, <<"partition-tuples", 6>>, <<"map-identity-tuples", 104>>,
-                 <<"reduce-tuples", 7>>, <<"call-with-one-tuple", 9>> >>
+                 <<"reduce-tuples", 7>>, <<"call-with-one-tuple", 9>>, <<"tfilter-mut-union", 2>>, <<"tfilter-array-of-mut-union", 1>> >>
 TupleKinds == {"map-over-tuples", "filter-tuples", "partition-tuples", "map-identity-tuples", "reduce-tuples", "call-with-one-tuple"}
-SpecialProgOf(k) == IF k \in TupleKinds THEN TupleProg(k) ELSE SpecialProg(k)
+SpecialProgOf(k) == IF k \in TupleKinds THEN TupleProg(k) ELSE IF k \in {"tfilter-mut-union", "tfilter-array-of-mut-union"} THEN CellProg(k) ELSE SpecialProg(k)
 SpecialOut(i) == Outcome(Run(SpecialProgOf(SpecialSeq[i][1]), Fuel))
 SpecialLaw == \A i \in 1..Len(SpecialSeq) :
   \/ (SpecialOut(i).status = "value" /\ SpecialOut(i).v = IntV(SpecialSeq[i][2]))
